@@ -240,10 +240,10 @@ def assert_pure(run, model, rule="C15.assert-pure"):
 
 
 def run(run, model):
-    early_return(run, model)
-    defaults(run, model)
-    slow(run, model)
-    debug_only_there(run, model)
+    run.do(early_return, model)
+    run.do(defaults, model)
+    run.do(slow, model)
+    run.do(debug_only_there, model)
     n = assert_pure(run, model)
     if n < 40:
         raise AnalysisError("only %d assert statements found (60+ confirmed by hand)" % n)
